@@ -33,7 +33,7 @@ theorem gen_beat_spec (bs : Bytes) : decodeBeat bs = liftDec beat bs := by
   rw [decodeBeat_eq, Impl.V2.decodeBeat_eq]
 theorem gen_ovw_spec_partial (bs : Bytes) (hb : bs.length < 9223372036854775808) :
     decodeOvw bs = liftDec ovw bs := by
-  rw [decodeOvw_eq_partial bs hb, Impl.V2.decodeOvw_eq]
+  rw [decodeOvw_eq_partial bs hb, Impl.V2.decodeOvw_eq bs (by unfold maxCount; exact hb)]
 theorem gen_cues_spec_partial (bs : Bytes) (hb : bs.length < 2305843009213693952) :
     decodeCues bs = liftDec cues bs := by
   rw [decodeCues_eq_partial bs hb, Impl.V2.decodeCues_eq]
